@@ -19,7 +19,7 @@ import subprocess
 import sys
 
 ROOT = '/verif'
-REPO = '/repo'
+REPO = os.environ.get('VERIF_REPO', '/repo')   # experiments may point the checks at a scratch copy of the repository
 GEN = os.path.join(ROOT, 'coq', 'gen')
 INC = os.path.join(REPO, 'include')
 
